@@ -208,7 +208,7 @@ def run(ctx):
             except Exception as e:
                 r.violations.append(core.Violation(["C20"], "trap", {"kind": "exception", "fn": "spokes_grad", "k_dtype": str(kint.dtype)}, "spokes_grad raised %r for integer spoke locations %s" % (e, kint.tolist()), {}))
                 continue
-            if gi.shape != gf.shape or not np.allclose(gi, gf, rtol=1e-12, atol=0):
+            if gi.shape != gf.shape or not core.allclose(gi, gf, rtol=1e-12, atol=0):
                 r.violations.append(core.Violation(["C20"], "trap", {"kind": "kspace_increment", "fn": "spokes_grad", "k_dtype": str(kint.dtype), "k": kint.tolist()},
                                                    "spoke locations %s given as %s produce a different gradient than the same locations as float64 (max |diff| %.3g): k-space is not moved by the requested increments"
                                                    % (kint.tolist(), kint.dtype, float(np.abs(gi - gf).max()) if gi.shape == gf.shape else -1), {}))
